@@ -25,14 +25,13 @@ pub fn nth_code(_s: &str) -> Result<u8, core::num::ParseIntError> {
 }
 
 macro_rules! ls_case {
-    ($name:ident, $k:expr, $skeleton:literal, $unwind:expr) => {
+    ($name:ident, $rname:ident, $k:expr, $skeleton:literal, $unwind:literal) => {
+        /// every list of `$k` codes, all fields well-formed numbers
         #[kani::proof]
         #[kani::stub(<u8 as core::str::FromStr>::from_str, nth_code)]
         #[kani::unwind($unwind)]
         fn $name() {
             let codes: [u8; $k] = kani::any();
-            let fail_at: usize = kani::any();
-            kani::assume(fail_at <= $k);
             unsafe {
                 let mut i = 0;
                 while i < $k {
@@ -40,19 +39,10 @@ macro_rules! ls_case {
                     i += 1;
                 }
                 NEXT = 0;
-                FAIL_AT = if fail_at == $k { usize::MAX } else { fail_at };
+                FAIL_AT = usize::MAX;
             }
             let got = anstyle_ls::parse($skeleton);
-            assert!(unsafe { NEXT } >= 1, "HARNESS-LIMIT: number parsing did not go through the stubbed function");
-            if fail_at < $k {
-                assert!(got.is_none(), "a field that is not a number in 0-255 rejects the whole list");
-                if let Some(s) = got {
-                    core::mem::forget(s);
-                }
-                kani::cover!(fail_at == $k - 1);
-                return;
-            }
-            assert!(unsafe { NEXT } == $k, "every field parsed exactly once");
+            assert!(unsafe { NEXT } == $k, "HARNESS-LIMIT: number parsing did not go through the stubbed function once per field");
             let mut vals = [0u16; $k];
             let sub = [false; $k];
             let mut i = 0;
@@ -66,9 +56,9 @@ macro_rules! ls_case {
                     if let Some(s) = got {
                         assert!(sty_of(s) == m, "the codes applied in order to the default style");
                     }
-                    kani::cover!(m.ul.is_some());
-                    kani::cover!(m.eff != 0 && m.fg.is_some());
-                    kani::cover!($k > 1 && codes[$k - 1] == 0 && codes[0] != 0);
+                    kani::cover!(m.ul.is_some() || $k < 3);
+                    kani::cover!(m.eff != 0 && (m.fg.is_some() || $k < 2));
+                    kani::cover!($k < 2 || (codes[$k - 1] == 0 && codes[0] != 0));
                 }
                 None => {
                     // 21, or 38/48/58 without complete operands: outside what the property fixes
@@ -77,15 +67,42 @@ macro_rules! ls_case {
                 }
             }
         }
+
+        /// any one field failing to parse rejects the whole list
+        #[kani::proof]
+        #[kani::stub(<u8 as core::str::FromStr>::from_str, nth_code)]
+        #[kani::unwind($unwind)]
+        fn $rname() {
+            let codes: [u8; $k] = kani::any();
+            let fail_at: usize = kani::any();
+            kani::assume(fail_at < $k);
+            unsafe {
+                let mut i = 0;
+                while i < $k {
+                    CODES[i] = codes[i];
+                    i += 1;
+                }
+                NEXT = 0;
+                FAIL_AT = fail_at;
+            }
+            let got = anstyle_ls::parse($skeleton);
+            assert!(unsafe { NEXT } >= 1, "HARNESS-LIMIT: number parsing did not go through the stubbed function");
+            assert!(got.is_none(), "a field that is not a number in 0-255 rejects the whole list");
+            if let Some(s) = got {
+                core::mem::forget(s);
+            }
+            kani::cover!(fail_at == $k - 1);
+            kani::cover!(fail_at == 0);
+        }
     };
 }
 
-ls_case!(ls_codes_1, 1, "1", 6);
-ls_case!(ls_codes_2, 2, "1;1", 6);
-ls_case!(ls_codes_3, 3, "1;1;1", 6);
-ls_case!(ls_codes_4, 4, "1;1;1;1", 7);
-ls_case!(ls_codes_5, 5, "1;1;1;1;1", 8);
-ls_case!(ls_codes_6, 6, "1;1;1;1;1;1", 9);
+ls_case!(ls_codes_1, ls_reject_1, 1, "1", 6);
+ls_case!(ls_codes_2, ls_reject_2, 2, "1;1", 6);
+ls_case!(ls_codes_3, ls_reject_3, 3, "1;1;1", 6);
+ls_case!(ls_codes_4, ls_reject_4, 4, "1;1;1;1", 7);
+ls_case!(ls_codes_5, ls_reject_5, 5, "1;1;1;1;1", 8);
+ls_case!(ls_codes_6, ls_reject_6, 6, "1;1;1;1;1;1", 9);
 
 /// The three documented "no style" spellings (concrete).
 #[kani::proof]
